@@ -43,11 +43,21 @@ var c06Names = []string{"", "", "Plain Name", "Müller, Hans", `O'Neil "The Boss
 	"山田\u3000太郎", "No\u00a0Break Space", "zero\u200dwidth joiner", "soft\u00adhyphen", "family 👨\u200d👩\u200d👧", "Support\tDesk"}
 var c06Invalid = []string{"not an address", "a@", "@b.example", "a b@c.example", "<>", "", "x@y@z", "Name <broken", "\"unterminated <a@b.example>"}
 
+// c06Spec is the addr-spec of a mailbox (local part + "@" + domain, split at the last "@"): the local part is written
+// as a quoted-string when it is no dot-atom.
+func c06Spec(mbox string) string {
+	i := strings.LastIndex(mbox, "@")
+	if i < 0 || isDotAtom(mbox[:i]) {
+		return mbox
+	}
+	return quoteLocalRFC5322(mbox[:i]) + mbox[i:]
+}
+
 func fmtAddr(name, addr string) string {
 	if name == "" {
-		return addr
+		return c06Spec(addr)
 	}
-	return `"` + strings.NewReplacer(`\`, `\\`, `"`, `\"`).Replace(name) + `" <` + addr + `>`
+	return `"` + strings.NewReplacer(`\`, `\\`, `"`, `\"`).Replace(name) + `" <` + c06Spec(addr) + `>`
 }
 
 func genC06(r *mrand.Rand, idx int) c06Case {
@@ -68,6 +78,9 @@ func genC06(r *mrand.Rand, idx int) c06Case {
 		if r.Intn(8) == 0 {
 			// atext characters that mean something to printf-style formatting, to shells and to URL decoding
 			a = gen.Pick(r, []string{"50%off.", "user%host.", "a%d%i%s.", "x+tag=1&y.", "{tpl}$HOME~.", "o'neil!#*/?^_`|."}) + a
+		} else if r.Intn(10) == 0 {
+			// local parts that have to be quoted: an "@" of their own (a gateway address), blanks
+			a = gen.Pick(r, []string{"user@host.", "john doe@home.", "first last.", "a@b@c."}) + a
 		}
 		return a
 	}
@@ -126,7 +139,7 @@ func genC06(r *mrand.Rand, idx int) c06Case {
 					a = "broken address"
 					op.Args, op.Names, op.Addrs = []string{name, a}, []string{""}, []string{""}
 				} else {
-					op.Args, op.Names, op.Addrs = []string{name, a}, []string{name}, []string{a}
+					op.Args, op.Names, op.Addrs = []string{name, c06Spec(a)}, []string{name}, []string{a}
 				}
 			case 3:
 				op.Op = kind + "IgnoreInvalid"
@@ -168,7 +181,7 @@ func genC06(r *mrand.Rand, idx int) c06Case {
 				op.Op = kind + "Format"
 				name := gen.Pick(r, c06Names)
 				a := newAddr(kind)
-				op.Args, op.Names, op.Addrs = []string{name, a}, []string{name}, []string{a}
+				op.Args, op.Names, op.Addrs = []string{name, c06Spec(a)}, []string{name}, []string{a}
 			}
 		case "EnvelopeFrom":
 			op.Op = kind
